@@ -248,6 +248,8 @@ class Renderer(object):
             return "(try %s catch E in { %s; true => throw E; never }%s)" % (self.ex(x["body"]), hs, fin)
         if e == "error":
             return "error %s" % esc(x.get("msg", "halt"))
+        if e == "assert":
+            return "assert(%s)" % self.ex(x["c"])
         raise ValueError(e)
 
     def domx(self, d):
